@@ -71,6 +71,8 @@ pub fn build(c: &Value, r: &mut Rng) -> Built {
                 let contract = pools::bytes32(r);
                 inp.issuance_asset_entropy = Some(contract);
                 inp.blinded_issuance = Some(0);
+                // a new issuance has a zero blinding nonce: absent (built field by field) or present and zero (as from_tx stores it)
+                if r.next_u32() % 2 == 0 { inp.issuance_blinding_nonce = Some(elements::secp256k1_zkp::ZERO_TWEAK); }
                 let entropy = AssetId::generate_asset_entropy(prevout, elements::ContractHash::from_byte_array(contract));
                 if iss.contains("amt") {
                     let v = 1_000 + r.next_u64() % 1_000_000;
